@@ -27,6 +27,19 @@ pub enum Mode {
     /// the shipped binary under the system-call seam: short reads / writes, EINTR, errno failures
     /// at decider-chosen calls on the input file, the -o file or stdout
     ChildSys { plan: SysPlan, to_stdout: bool },
+    /// library level: simplify with the strategy, extract with the given extractor mode, in the
+    /// given graph backend (no I/O, no process boundary)
+    Lib { ex: ExMode, up_to_perm: bool, hash_backend: bool },
+}
+
+#[derive(Clone, Copy, Debug, Serialize, Deserialize, PartialEq)]
+pub enum ExMode {
+    /// gflow extractor, frontier Gaussian elimination restricted to one solution set (the default)
+    SingleSlnSet,
+    /// gflow extractor with plain Gaussian elimination
+    SimpleGauss,
+    /// Gauss-free extractor for diagrams with causal flow (offered for the flow strategy only)
+    Flow,
 }
 
 #[derive(Clone, Debug, Serialize, Deserialize, PartialEq)]
@@ -69,6 +82,33 @@ fn product_state(n: usize, seed: u64) -> Vec<C64> {
 
 /// Judge the program text the optimiser produced for `input`.
 fn judge_output(input: &HCirc, text: &str, how: &str, batch: &str, out: &mut RunOut) {
+    judge_output_perm(input, text, how, batch, false, out)
+}
+
+/// All permutations of 0..n (n <= 6).
+fn permutations(n: usize) -> Vec<Vec<usize>> {
+    fn rec(cur: &mut Vec<usize>, used: &mut Vec<bool>, n: usize, out: &mut Vec<Vec<usize>>) {
+        if cur.len() == n {
+            out.push(cur.clone());
+            return;
+        }
+        for i in 0..n {
+            if !used[i] {
+                used[i] = true;
+                cur.push(i);
+                rec(cur, used, n, out);
+                cur.pop();
+                used[i] = false;
+            }
+        }
+    }
+    let mut out = vec![];
+    rec(&mut vec![], &mut vec![false; n], n, &mut out);
+    out
+}
+
+/// `up_to_perm`: the printed program need only be equivalent after its input qubits are permuted.
+fn judge_output_perm(input: &HCirc, text: &str, how: &str, batch: &str, up_to_perm: bool, out: &mut RunOut) {
     let mut vio = |class: &str, detail: String| {
         let v = Violation::new(class, detail).with("batch", batch);
         if !out.violations.iter().any(|x| x.key() == v.key()) {
@@ -140,6 +180,31 @@ fn judge_output(input: &HCirc, text: &str, how: &str, batch: &str, out: &mut Run
             out.event_digest = mix(out.event_digest, ((a.0 * 1e6).round() as i64 as u64) ^ ((a.1 * 1e6).round() as i64 as u64).rotate_left(21));
         }
     }
+    if up_to_perm {
+        // V o P ~ U for some permutation P of the input qubits: column j of V o P is column pi(j) of V
+        let n = input.n;
+        let found = permutations(n).into_iter().any(|pi| {
+            let vp: Vec<Vec<C64>> = (0..(1usize << n))
+                .map(|j| {
+                    let mut k = 0usize;
+                    for q in 0..n {
+                        if (j >> q) & 1 == 1 {
+                            k |= 1 << pi[q];
+                        }
+                    }
+                    v[k].clone()
+                })
+                .collect();
+            gatesim::proj_equal(&u, &vp, 1e-7, false)
+        });
+        if !found {
+            vio(
+                "not_equivalent_up_to_permutation",
+                format!("{how}: no permutation of the input qubits makes the printed {}-gate program equivalent to the input", p.gates.len()),
+            );
+        }
+        return;
+    }
     if !gatesim::proj_equal(&u, &v, 1e-7, false) {
         vio(
             "not_equivalent",
@@ -157,11 +222,11 @@ impl Property for C03 {
         "fault_enumeration"
     }
     fn rule(&self) -> String {
-        "CLI clause only. decider generates a circuit (1..5 qubits, 0..30 gates over the QASM-expressible unitary set incl. swap, xcx, ccx, ccz, rz/rx with denominators <= 16, zero-gate programs, several registers), prints it with the harness's own QASM printer, picks the strategy switch (--full/--flow/--clifford/none) and runs `quizx opt` in-process through -o, or the shipped binary as a child on stdout, or the child under an input fault (missing, directory, empty, torn at a statement boundary, torn mid token) and/or an output fault (ENOSPC, RLIMIT_FSIZE torn write, missing directory, directory target, stdout to /dev/full, broken pipe), or the child under the system-call seam (LD_PRELOAD shim: short reads, short writes, EINTR and errno failures EIO/ENOSPC/EDQUOT/EMFILE/EACCES/... at decider-chosen open/read/write calls on the input file, the -o file or stdout; long programs in a quarter of those runs). Fault-free: exit 0, the output parses back (quizx's parser and the harness's), same qubit count, only h/rz/cz/cx/swap, unitary projectively equal to the input's by the harness's gate-matrix simulator. Under faults: success only with a complete program equivalent to the program the tool actually saw (under the system-call seam the file on disk is complete, so that is the whole program; a failure after a short transfer or EINTR is counted as a probe, not a verdict). Non-trivial: >=2 qubits, >=1 two-qubit gate, >=1 non-Clifford phase, output text differs from the input text. Distinct by (scenario digest, event digest).".into()
+        "decider generates a circuit (1..5 qubits, 0..30 gates over the QASM-expressible unitary set incl. swap, xcx, ccx, ccz, rz/rx with denominators <= 16, zero-gate programs, several registers), prints it with the harness's own QASM printer, picks the strategy switch (--full/--flow/--clifford/none) and runs `quizx opt` in-process through -o, or the shipped binary as a child on stdout, or the child under an input fault (missing, directory, empty, torn at a statement boundary, torn mid token) and/or an output fault (ENOSPC, RLIMIT_FSIZE torn write, missing directory, directory target, stdout to /dev/full, broken pipe), or the child under the system-call seam (LD_PRELOAD shim: short reads, short writes, EINTR and errno failures EIO/ENOSPC/EDQUOT/EMFILE/EACCES/... at decider-chosen open/read/write calls on the input file, the -o file or stdout; long programs in a quarter of those runs). Fault-free: exit 0, the output parses back (quizx's parser and the harness's), same qubit count, only h/rz/cz/cx/swap, unitary projectively equal to the input's by the harness's gate-matrix simulator. Under faults: success only with a complete program equivalent to the program the tool actually saw (under the system-call seam the file on disk is complete, so that is the whole program; a failure after a short transfer or EINTR is counted as a probe, not a verdict). Sub-batch lib (library-level clause; no I/O or schedule in it, so this part is seeded workload generation against the reference model rather than fault simulation): Circuit -> to_graph in the vector or the hash backend -> flow_simp / clifford_simp / full_simp -> Extractor in gflow single-solution-set, gflow simple-Gauss or (flow strategy only) Gauss-free flow mode, with or without up_to_perm; extraction must succeed and the circuit must be equivalent (for up_to_perm: for some permutation of the input qubits, all n! tried). Non-trivial: >=2 qubits, >=1 two-qubit gate, >=1 non-Clifford phase, output text differs from the input text. Distinct by (scenario digest, event digest).".into()
     }
     fn assumptions(&self) -> Vec<String> {
         vec![
-            "only the command-line clause of C03 is decided here; the library-level clause (all strategies x all extractor modes x both backends) is a pure function of the circuit and out of reach of this technique".into(),
+            "the command-line clause is decided by fault simulation; the library-level clause (strategies x extractor modes x backends) is a pure function of the circuit, so its sub-batch `lib` is plain seeded generation against the same reference simulator - evidence, within <=6 qubits, not a fault or schedule exploration".into(),
             "the harness's gate-matrix simulator and QASM parser (self-tested) are correct; projective equality in f64 at 1e-7".into(),
         ]
     }
@@ -178,6 +243,7 @@ impl Property for C03 {
             SubBatch { name: "child", quick: 1_500, thorough: 8_000 },
             SubBatch { name: "faults", quick: 3_000, thorough: 16_000 },
             SubBatch { name: "sysfaults", quick: 3_000, thorough: 40_000 },
+            SubBatch { name: "lib", quick: 40_000, thorough: 400_000 },
         ]
     }
     fn expected_probes(&self) -> Vec<&'static str> {
@@ -185,7 +251,9 @@ impl Property for C03 {
     }
 
     fn generate(&self, d: &mut Decider, _tier: Tier, sub: &str) -> Sc {
-        let (n, ng) = if sub == "dense" {
+        let (n, ng) = if sub == "lib" && d.coin("lib.dense", 1, 4) {
+            (4 + d.choose("dn", 2), 30 + d.choose("dng", 41))
+        } else if sub == "dense" {
             // longer circuits on 4..6 qubits: the local shapes the rewrite rules and the frontier
             // Gaussian elimination only meet after many gates (pivots with shared neighbours, row
             // swaps, gadgets of higher degree)
@@ -199,7 +267,7 @@ impl Property for C03 {
         } else {
             (1 + d.choose("n", 5), d.choose("ng", 31))
         };
-        let mix = GateMix { clifford_t_only: d.coin("ct", 1, 2), allow_swap: sub == "swap", allow_ccz: true, allow_xcx: true, allow_rx: true, max_den: 16 };
+        let mix = GateMix { clifford_t_only: d.coin("ct", 1, 2), allow_swap: sub == "swap" || (sub == "lib" && d.coin("lib.swap", 1, 3)), allow_ccz: true, allow_xcx: true, allow_rx: true, max_den: 16 };
         let mut circ = match sub {
             "empty" => HCirc::new(n),
             _ => gen::random_circuit(d, n, ng, mix, 40),
@@ -227,8 +295,15 @@ impl Property for C03 {
         if sub != "faults" && d.coin("defs", 1, 6) {
             circ.defs = d.draw64("defs.seed") | 1;
         }
-        let strategy = *d.pick("strategy", &[Strategy::Default, Strategy::Full, Strategy::Flow, Strategy::Clifford]);
+        let mut strategy = *d.pick("strategy", &[Strategy::Default, Strategy::Full, Strategy::Flow, Strategy::Clifford]);
         let mode = match sub {
+            "lib" => {
+                let ex = *d.pick("lib.ex", &[ExMode::SingleSlnSet, ExMode::SimpleGauss, ExMode::Flow]);
+                if ex == ExMode::Flow {
+                    strategy = Strategy::Flow;
+                }
+                Mode::Lib { ex, up_to_perm: d.coin("lib.perm", 1, 3), hash_backend: d.coin("lib.hb", 1, 2) }
+            }
             "child" => Mode::ChildStdout,
             "faults" => {
                 let ng = circ.gates.len();
@@ -392,6 +467,64 @@ impl Property for C03 {
                     CliResult::Budget => {}
                 }
                 out.nontrivial = fired > 0;
+            }
+            Mode::Lib { ex, up_to_perm, hash_backend } => {
+                use quizx::extract::ToCircuit;
+                use quizx::graph::GraphLike;
+                fn go<G: GraphLike + ToCircuit>(qc: &quizx::circuit::Circuit, strategy: Strategy, ex: ExMode, up_to_perm: bool) -> Result<(String, usize), String> {
+                    let mut g: G = qc.to_graph();
+                    match strategy {
+                        Strategy::Default | Strategy::Full => {
+                            quizx::simplify::full_simp(&mut g);
+                        }
+                        Strategy::Flow => {
+                            quizx::simplify::flow_simp(&mut g);
+                        }
+                        Strategy::Clifford => {
+                            quizx::simplify::clifford_simp(&mut g);
+                        }
+                    }
+                    let mut e = g.extractor();
+                    match ex {
+                        ExMode::SingleSlnSet => e.gflow(),
+                        ExMode::SimpleGauss => e.gflow_simple_gauss(),
+                        ExMode::Flow => e.flow(),
+                    };
+                    if up_to_perm {
+                        e.up_to_perm();
+                    }
+                    match e.extract() {
+                        Ok(c) => Ok((c.to_qasm(), c.num_qubits())),
+                        Err(e) => Err(e.0),
+                    }
+                }
+                out.probe(&format!("lib.extractor.{ex:?}"));
+                out.probe(if *hash_backend { "lib.backend.hash" } else { "lib.backend.vec" });
+                if *up_to_perm {
+                    out.probe("lib.up_to_perm");
+                }
+                let qc = gen::to_quizx_circuit(&sc.circ);
+                let (strategy, ex, utp, hb) = (sc.strategy, *ex, *up_to_perm, *hash_backend);
+                let core = crate::simcore::Core::new(dec, 1);
+                let (res, core) = crate::simcore::with_sim(core, move || {
+                    if hb {
+                        go::<quizx::hash_graph::Graph>(&qc, strategy, ex, utp)
+                    } else {
+                        go::<quizx::vec_graph::Graph>(&qc, strategy, ex, utp)
+                    }
+                });
+                dec = core.dec;
+                out.steps += 1;
+                let how = format!("library: {:?} simplification, {:?} extractor{}, {} backend", sc.strategy, ex, if utp { " up to permutation" } else { "" }, if hb { "hash" } else { "vector" });
+                match res {
+                    crate::simcore::Caught::Ok(Ok((text, _nq))) => {
+                        judge_output_perm(&sc.circ, &text, &how, sub, utp, &mut out);
+                        out.nontrivial = base_nontrivial;
+                    }
+                    crate::simcore::Caught::Ok(Err(e)) => out.violations.push(Violation::new("extraction_failed", format!("{how}: {e}")).with("batch", sub).with("extractor", &format!("{ex:?}"))),
+                    crate::simcore::Caught::Panic(m) => out.violations.push(Violation::new("panic", format!("{how}: {m}")).with("batch", sub).with("msg", super::c18::norm_msg(&m))),
+                    crate::simcore::Caught::Budget => out.inconclusive = true,
+                }
             }
             Mode::ChildFaults(inf, outf) => {
                 out.engine = "child_process";
